@@ -31,7 +31,7 @@ RULE = (
     "if recomputed at the queried state (sensitivity guard) ; distinct = shape signature"
 )
 ASSUMPTIONS = ["reference two-phase evaluator mon/refmodel.py", "functions non-constant in every argument (mon/fnlib)"]
-N = {"quick": 1500, "thorough": 400000}
+N = {"quick": 1500, "thorough": 100000}
 MIN_NONTRIVIAL = {"quick": 60, "thorough": 600}
 
 
